@@ -59,8 +59,9 @@ def scenarios(rng, tier):
     batches.append((sw.text(), {'sweep': True, 'nomodel': tier == 'quick'}))
     return batches
 def project(blk, name, meta):
+    # reply or silence
     if blk.fault: return ('fault',)
-    if blk.op.startswith('frame'): return tuple(blk.acts)
+    if blk.op.startswith('frame'): return bool(blk.sends())
     return ()
 def oracle(name, ib, mb, meta):
     fails = []; tr = MapperTracker()
